@@ -93,6 +93,10 @@ impl Condition {
         self.gv_weight = [1.0].repeat(nstream);
 
         /* spectrum */
+        let default = Self::default();
+        self.stage = default.stage;
+        self.use_log_gain = default.use_log_gain;
+        self.alpha = default.alpha;
         for option in &voices.stream_metadata(0).option {
             let Some((key, value)) = option.split_once('=') else {
                 eprintln!("Skipped unrecognized option {}.", option);
